@@ -10,7 +10,7 @@
   and a reader that returns data together with a non-EOF error.
 -/
 import CedarGo.Model.Text.Lexer
-namespace CedarGo.Text
+namespace CedarGo.Text.Lx
 
 /-- how the reader ends once all chunks are delivered: `(0, io.EOF)`; `io.EOF` together with the last
     data; or `(0, err)` with a non-EOF error. The final status is repeated on every further `Read`. -/
@@ -191,4 +191,4 @@ def chunksOf : List Nat → List UInt8 → List (List UInt8)
   | [], bs => [bs]
   | n :: ns, bs => bs.take n :: chunksOf ns (bs.drop n)
 
-end CedarGo.Text
+end CedarGo.Text.Lx
